@@ -20,8 +20,8 @@ CLAIMED = {
     "C14": dict(
         text=("On the model TLC checks the lock-step product of a filtered and an all-on decoder (FilterExact). On the code, every session and every "
               "graph-walk sequence is run twice (option set o / all on) and TLC checks deliveries(o) = Project(o, deliveries(all on)) in content, "
-              "order, chunk and time stamp."),
-        note="Judges only the relation between the two real runs (what the all-on run must be is C04/C06). midicatdrv's second copy of the filter is covered under C17's harness.",
+              "order, chunk and time stamp. The process-backed driver's own copy of the filter is checked the same way with twin histories on the real midicatdrv against the stand-in helper pair."),
+        note="Judges only the relation between the two real runs (what the all-on run must be is C04/C06).",
         technique="TLA+ lock-step product model checked by TLC; twin-run trace validation by TLC; twin graph walk",
         ref="DESIGN.md section 4 C14"),
 }
@@ -94,9 +94,10 @@ CLAIMED.update({
               "with writer preference, capacity-1 channels, helper process, start failure) is model-checked for deadlock freedom, no-callback-after-stop and lock discipline "
               "(with a regression config of the pre-fix start-failure path that must deadlock); the real driver runs seeded random histories incl. 2-4 concurrent senders and "
               "start failures against a stand-in helper pair (two real child processes joined by a datagram socket), built with -race, every call under a 10 s watchdog, and "
-              "TLC judges each recorded history with Ports!PStep / ParOk."),
-        note=("Data-race freedom is observed by the Go race detector during the recorded runs (not a TLA+ notion). The PlusCal model is bound to the code at the level of "
-              "call returns and callbacks (black box) only; the verif-tagged hook is used to wait for quiescence. Helper processes dying by themselves are out of scope."),
+              "TLC judges each recorded history with Ports!PStep / ParOk (incl. listen options, message classes, stop racing with a delivery in flight). The PlusCal model is checked to "
+              "refine the abstract monitor McatEvents of the port's critical sections, and the verif hook's events recorded from the real in port (lock order) are validated against the same monitor."),
+        note=("Data-race freedom is observed by the Go race detector during the recorded runs (not a TLA+ notion). 'Never called again' is read as: no listener code runs once stop() has returned. "
+              "Helper processes dying by themselves are out of scope."),
         technique="TLA+/PlusCal lifecycle + concurrency model checked by TLC; state-graph history walk (testdrv); TLC trace validation of recorded histories (midicatdrv under -race)",
         ref="DESIGN.md section 4 C17"),
 })
@@ -159,7 +160,8 @@ CLAIMED.update({
     "C19": dict(
         text=("MidicatLine.tla specifies the line encoder, the grammar and a character-level reader automaton; TLC checks losslessness under all fragmentations, one record per line, resumption after "
               "malformed lines (107 k / 1.5 M states). Binding: the texts of TLC's dumped state graph are fed to the real ReadAndConvert under several delivery modes (G), and seeded record sequences "
-              "(int32 stamps, 1..2000 bytes) with the four mutation kinds and fragmenting readers are judged call by call by TLC (T)."),
+              "(int32 stamps, 1..2000 bytes) with the mutation kinds and fragmenting readers are judged call by call by TLC (T); the REAL midicatdrv out and in ports run through a stand-in helper pair and "
+              "TLC checks the lines the out port wrote (verbatim, also under concurrent senders) against the grammar and the records the in port delivered against the messages sent."),
         note="Lower-case hex may be accepted or rejected; how much of a malformed line an erroring call consumes is free as long as later records are unmodified originals.",
         technique="TLA+ reader automaton checked by TLC; TLC-generated texts replayed into the real reader; TLC trace validation",
         ref="DESIGN.md section 4 C19"),
